@@ -174,6 +174,8 @@ def process_scope(
                 window_end = com_start
             pos = new_p
             pos += 1
+            # redirections following the body ("} > /dev/null") are part of the definition
+            pos = walk_command_complex(buff, pos, endchar, COMMAND_PARSING)
             continue
         # Check for env assignment.
         new_start, new_end, new_p = is_envvar(buff, pos)
